@@ -166,6 +166,21 @@ def run_history(history):
                         cur[p] = {}
                     cur = cur[p]
                 cur[path[-1]] = mv
+            elif kind == 'alias':
+                # the same handle object stored under a second name (beyond a tree: only the
+                # snapshot comparison of C17 is judged on such histories)
+                h = root.get(op[1])
+                if isinstance(h, desper.Handle):
+                    root[op[2]] = h
+                    named['aliased'] = True
+                    cur = model
+                    path = op[2].split('/')
+                    for p in path[:-1]:
+                        if not isinstance(cur.get(p), dict):
+                            cur[p] = {}
+                        cur = cur[p]
+                    cur[path[-1]] = h
+                continue
             elif kind == 'clear':
                 key = op[1]
                 cur, mcur = root, model
@@ -216,6 +231,8 @@ def run_history(history):
             continue
         except Exception as e:      # noqa
             return ('C11', 'operation %r raised %r' % (op, e), 'exception')
+        if named.get('aliased'):
+            continue
         v = check_tree(root, model, CH, handles)
         if v:
             return v
@@ -276,7 +293,8 @@ def families(pid, tier):
         n += 1
     if pid == 'C17':
         ops = [('set', k, v) for k in ('a', 'a/b', 'b-1', '__p') for v in (('h', 0), ('h', 1), ('m', 1))]
-        ops += [('set', 'a', ('layer',)), ('set', 'a/b', ('layer',))]
+        ops += [('set', 'a', ('layer',)), ('set', 'a/b', ('layer',)), ('alias', 'a', 'c'), ('alias', 'a', 'a/c'),
+                ('alias', 'a/b', 'd')]
         # every history ends with the comparison of the snapshot with the map
         for k in range(1, n + 2):
             for combo in itertools.product(ops, repeat=k):
